@@ -253,6 +253,25 @@ fn sibling_sats(list: &VTree) -> Vec<u8> {
     v
 }
 
+/// how many elements of a long list are explored leaf by leaf (first ones, middle, last ones)
+pub static LIST_PICKS: std::sync::atomic::AtomicUsize = std::sync::atomic::AtomicUsize::new(6);
+
+fn pick_elems(n: usize) -> Vec<usize> {
+    let k = LIST_PICKS.load(std::sync::atomic::Ordering::Relaxed);
+    if n <= k {
+        return (0..n).collect();
+    }
+    let mut v: Vec<usize> = vec![];
+    let head = (k - 1) / 2;
+    let tail = k - 1 - head;
+    v.extend(0..head);
+    v.push(n / 2);
+    v.extend(n - tail..n);
+    v.sort();
+    v.dedup();
+    v
+}
+
 /// enumerate deviation sites: (path, field name, node kind, enclosing list's satellite ids, header?)
 struct Site {
     path: Vec<usize>,
@@ -280,7 +299,7 @@ fn collect_sites(tree: &VTree, sites: &mut Vec<Site>, lists: &mut Vec<Vec<usize>
                     x
                 };
                 let n = items.len();
-                let pick: Vec<usize> = if n <= 4 { (0..n).collect() } else { vec![0, 1, n / 2, n - 1] };
+                let pick: Vec<usize> = pick_elems(n);
                 for i in pick {
                     path.push(i);
                     let p = if i == 0 { 1 } else if i == n - 1 { 2 } else { 3 };
@@ -411,7 +430,7 @@ fn well_formed(f: &[u8], number: Option<u16>) -> Option<String> {
     None
 }
 
-pub fn evaluate(rep: &mut Report, fl: &Flags, m: &Message, tree: &VTree, desc: &dyn Fn() -> serde_json::Value) {
+pub fn evaluate(rep: &mut Report, fl: &Flags, m: &Message, tree: &VTree, used: &mut MessageBuilder, desc: &dyn Fn() -> serde_json::Value) {
     let number = m.number();
     let nn = number.unwrap_or(0);
     rep.transitions += 1;
@@ -443,6 +462,21 @@ pub fn evaluate(rep: &mut Report, fl: &Flags, m: &Message, tree: &VTree, desc: &
     };
     if fl.c09 {
         rep.traces += 1;
+        // the same message on a builder that has been through every earlier build of this base
+        // (successful and refused ones): whatever it returns must be well formed too
+        rep.transitions += 1;
+        match catch(|| used.build_message(m).map(|x| x.to_vec()).map_err(|e| format!("{:?}", e))) {
+            Err(p) => {
+                rep.violation_lazy("C09", format!("used-builder-panic:{}:{}", p.location, nn), size, || (format!("msg {}: build_message on a used builder panicked at {}: {}", nn, p.location, p.message), replay()));
+                *used = MessageBuilder::new();
+            }
+            Ok(Err(_)) => {}
+            Ok(Ok(f)) => {
+                if let Some(w) = well_formed(&f, number) {
+                    rep.violation_lazy("C09", format!("used-builder-malformed:{}", w.chars().filter(|c| !c.is_ascii_digit() && !c.is_ascii_hexdigit()).collect::<String>()), size, || (format!("msg {}: frame emitted by a builder that was used before (incl. refused builds) is not well formed: {}", nn, w), replay()));
+                }
+            }
+        }
     }
     if fl.c01 {
         if let Some(f1) = &f1 {
@@ -569,7 +603,8 @@ pub fn explore_base(rep: &mut Report, fl: &Flags, number: u16, base_name: &str, 
     };
     rep.states += 1;
     let d0 = || json!({"number":number,"base":base_name,"level":0});
-    evaluate(rep, fl, m0, &tree0, &d0);
+    let mut used = MessageBuilder::new();
+    evaluate(rep, fl, m0, &tree0, &mut used, &d0);
     let mut sites = vec![];
     let mut lists = vec![];
     let mut sigs = vec![];
@@ -579,7 +614,7 @@ pub fn explore_base(rep: &mut Report, fl: &Flags, number: u16, base_name: &str, 
     let mut run = |rep: &mut Report, tree: &VTree, label: &dyn Fn() -> serde_json::Value| -> bool {
         match try_message(tree) {
             Some(m) => {
-                evaluate(rep, fl, &m, tree, label);
+                evaluate(rep, fl, &m, tree, &mut used, label);
                 true
             }
             None => false,
@@ -705,7 +740,8 @@ pub fn explore_base(rep: &mut Report, fl: &Flags, number: u16, base_name: &str, 
 
 pub fn run_value_engine(ctx: &Ctx, fl: Flags) -> Report {
     let bases = base_messages(ctx.tier);
-    let cap2: u64 = if ctx.tier.thorough() { 60_000 } else { 0 };
+    let cap2: u64 = if ctx.tier.thorough() { 60_000 } else { 2_000 };
+    LIST_PICKS.store(ctx.tier.pick(6, 16), std::sync::atomic::Ordering::Relaxed);
     let parts = par_shards(bases.len(), |i| {
         let mut rep = Report::new();
         let (n, name, m) = &bases[i];
@@ -725,7 +761,7 @@ pub fn replay(r: &serde_json::Value) -> Option<String> {
     let m = try_message(&tree)?;
     let mut rep = Report::new();
     let fl = Flags { c01: true, c09: true, c20: true };
-    evaluate(&mut rep, &fl, &m, &tree, &|| json!(null));
+    evaluate(&mut rep, &fl, &m, &tree, &mut MessageBuilder::new(), &|| json!(null));
     let mut s = format!("message: {}\n", format!("{:?}", m).chars().take(600).collect::<String>());
     s.push_str(&format!("build: {:?}\n", build(&m).map(|r| r.map(|f| hex(&f)))));
     for ((p, _), v) in rep.viol {
